@@ -1370,6 +1370,69 @@ def parse_model(fields):
     return sorted(obs), sorted(pl), sorted(xp)
 
 
+def parse_model_page(fields):
+    """the `Z:` lines of the model = the places of the module page with a visibility word, in the vocabulary of
+    `c04_pages.page_words` (the page cannot tell a procedure declared under a generic interface from one referenced
+    there: both are `member`)"""
+    out = []
+    for f in fields:
+        p = f.split(":")
+        if p[0] == "Z":
+            kind = "member" if p[1] == "ref" else p[1]
+            out.append((kind, canon(p[2]), canon(p[3]), p[4]))
+    return sorted(out)
+
+
+def run_pages(ford, d: Path, sample):
+    """sample: list of (unit name, text) of modules.  Real parse + correlate, then the real module page of every unit
+    rendered in-process; returns {unit name: page_words} and the log"""
+    import shutil
+    import ford.sourceform as sf
+    from ford.fortran_project import Project
+    from ford.settings import ProjectSettings
+    from .c04_pages import Renderer, page_words
+
+    src = d / "pagesrc"
+    if src.exists():
+        shutil.rmtree(src)
+    src.mkdir(parents=True)
+    for name, text in sample:
+        (src / f"{name}.f90").write_text(text)
+    sf.namelist = sf.NameSelector()
+    settings = ProjectSettings(src_dir=[src], output_dir=d / "doc", display=["public", "private", "protected"], dbg=True,
+                               preprocess=False, graph=False, search=False, warn=False, quiet=True, incl_src=False)
+    settings.project_url = str(d / "doc")
+    out = {}
+    with common.quiet() as buf:
+        project = Project(settings)
+        project.correlate()
+        rnd = Renderer(settings, project)
+        for m in project.modules:
+            try:
+                out[m.name.lower()] = page_words(rnd.module_page(m))
+            except Exception as e:  # a page that cannot be rendered is an observation too
+                out[m.name.lower()] = f"{type(e).__name__}: {e}"
+    shutil.rmtree(src)
+    return out, buf.getvalue()
+
+
+PAGE_KEY = {"var": "var", "type": "type", "generic": "iface", "wrapper": "iface", "absiface": "absiface", "func": "func",
+            "sub": "sub", "mproc": "mproc"}
+
+
+def page_entity(line, exp):
+    """the entity (key of `spec_module`) a place of the module page belongs to"""
+    kind, owner, name, _ = line
+    owner, name = ident(owner), ident(name)
+    if kind in ("comp", "bind"):
+        return (kind, owner, name)
+    if kind == "member":
+        if ("spec", owner, name) in exp:
+            return ("spec", owner, name)
+        return ("func", name) if ("func", name) in exp else ("sub", name)
+    return (PAGE_KEY[kind], name)
+
+
 PROBE_SAME = """module c04probe_1
   private
   public :: s
@@ -1824,6 +1887,53 @@ def run(tier: str, seed: int, replay: str | None = None) -> int:
                                 spec_reqs.append(["c04.spec", "".join(acode(a) for a in attrs), key[-1]]
                                                  + [enc_stmt(x) for x in model_view(stmts) if x[0] != "mproc"])
                                 spec_exp.append((exp[key], name, key))
+        # ---- page stream: the visibility words on the real module pages (second observation point) -------------
+        n_pages = 220 if tier == "quick" else 1500
+        pool = [k for k, c in enumerate(cases) if c["scope"] == "m" and not c["anc"] and model[k] and model[k][0] == "ok"
+                and legality("m", c["stmts"]) is None]
+        # every table cell once (round robin over the embeddings), then wild programs and families
+        tab = [k for k in pool if cases[k]["stream"] == "table"]
+        rest = [k for k in pool if cases[k]["stream"] != "table"]
+        pick = tab[::reps][: n_pages * 2 // 3]
+        pick += rest[: n_pages - len(pick)]
+        if replay:
+            pick = pool
+        n_page_lines = n_page_bad = n_page_fail = 0
+        hist_page: dict[str, int] = {}
+        if pick:
+            pages, plog = run_pages(ford, Path(d), [(cases[k]["name"], cases[k]["text"]) for k in pick])
+            for k in pick:
+                c = cases[k]
+                case = {"stream": "pages", "cell": c["cell"], "scope": "m", "stmts": c["stmts"], "spell": c["spell"],
+                        "source": c["text"]}
+                words = pages.get(c["name"])
+                mz = parse_model_page(model[k][1:])
+                if not isinstance(words, list):
+                    n_page_bad += 1
+                    rep.tie_broken(f"page stream: no module page for {c['name']}: {words}", dict(case, log=plog[-300:]))
+                    continue
+                wz = sorted((a, canon(b), canon(n_), w) for a, b, n_, w in words)
+                n_page_lines += len(wz)
+                for ln in wz:
+                    hist_page[ln[0]] = hist_page.get(ln[0], 0) + 1
+                if wz != mz:
+                    n_page_bad += 1
+                    rep.tie_broken(f"correspondence pages: the module page of {c['name']} and the model's page view differ: "
+                                   f"page-only={sorted(set(wz) - set(mz))[:6]} model-only={sorted(set(mz) - set(wz))[:6]}",
+                                   dict(case, variant=VARIANT, page=wz, model_page=mz))
+                exp = spec_module("m", model_view(c["stmts"]))
+                for ln in wz:
+                    key = page_entity(ln, exp)
+                    e = exp.get(key)
+                    if e is None:
+                        continue  # not an entity of the specification (reported by the correspondence if unexpected)
+                    if ln[3] != e:
+                        n_page_fail += 1
+                        n_oracle_fail += 1
+                        fid = classify("m", model_view(c["stmts"]), key, e, ln[3], c["spell"]) if ln[3] != "-" else None
+                        rep.failing_input(dict(case, entity=list(key), page_line=list(ln), expected=e, observed=ln[3],
+                                               why=f"module page, {ln[0]} {ln[2]}: Fortran says {e}, the page prints "
+                                                   f"{ln[3] if ln[3] != '-' else 'no visibility'}"), fid)
         got = drv.batch(spec_reqs)
         n_spec_bad = 0
         for (e, name, key), g in zip(spec_exp, got):
@@ -1846,6 +1956,11 @@ def run(tier: str, seed: int, replay: str | None = None) -> int:
         implementations_of_separate_module_procedures_checked_by_oracle=n_impls,
         implementation_histogram=dict(sorted(hist_impl.items())),
         export_table_entries_checked_by_oracle=n_exports,
+        module_pages_rendered=len(pick),
+        page_places_with_visibility_checked=n_page_lines,
+        page_places_histogram=dict(sorted(hist_page.items())),
+        page_correspondence_disagreements=n_page_bad,
+        page_oracle_failures=n_page_fail,
         variant_of_code_under_test={"probe": VARIANT,
                                     "attr_dict_entry_deleted": "after the loop" if "a" in VARIANT else "per entity",
                                     "constructor_takes_type_permission": "in _cleanup" if "e" in VARIANT else "in correlate",
@@ -1865,6 +1980,10 @@ def run(tier: str, seed: int, replay: str | None = None) -> int:
         generated_tables=table,
     )
     rep.assumptions += [
+        "module pages: the real mod_page.html is rendered in-process (ford.output.ModulePage with the project's Jinja "
+        "environment, docstrings not converted) and read by harness/c04_pages.py from its layout (section titles, card "
+        "headings, table columns); type pages, procedure pages and the generic-interface page print the same values "
+        "through their own templates and are not rendered",
         "statement recognition (regexes of FortranContainer.__init__, ATTRIB_RE, ATTRIBSPLIT_RE) is on the implementation "
         "side only; it is exercised by random case / spacing / '::' variants of every rendered statement",
         "folding of accessibility and PROTECTED into FORD's single permission value: private > protected > public",
